@@ -44,6 +44,7 @@ def write(pid, tier, seed, mod, scs, cnt, wv, n_paths_distinct, n_nontrivial, fu
         refuted=cnt["refuted"],
         inconclusive=cnt["inconclusive"],
         concrete_per_path_obligations=cnt["concrete_obligations"],
+        concrete_only_sampling_records=cnt.get("concrete_only_records", 0),
         sensitivity_twins=dict(total=cnt["twin_total"], refuted_as_required=cnt["twin_refuted"]),
         exception_paths=cnt["exc_paths"],
         inconclusive_paths=cnt["inconclusive_paths"],
